@@ -4,6 +4,7 @@ import (
 	"bytes"
 	"fmt"
 	"go/ast"
+	"go/constant"
 	"go/parser"
 	"go/printer"
 	"go/token"
@@ -28,42 +29,135 @@ const (
 	lexProgKey    = "internal/runtime/compiler/parser.lexProg"
 )
 
-// lexerTrie extracts spelling -> token from lexProg's character switch.
-func lexerTrie(f *core.Func) map[string][]string {
-	out := map[string][]string{}
-	info := f.Info()
-	charOf := func(e ast.Expr) (string, bool) {
-		// `r == 'c'` or `'c'`
-		if be, ok := core.Unparen(e).(*ast.BinaryExpr); ok && be.Op == token.EQL {
-			e = be.Y
+// lexTrie is the spelling -> token table read out of lexProg's character decisions.
+type lexTrie struct {
+	spell      map[string][]string        // spelling -> tokens emitted after exactly that spelling
+	attributed map[*ast.CallExpr]bool     // emit calls that were attributed to a spelling
+	emitCalls  map[string][]*ast.CallExpr // token -> every emit call in lexProg and the helpers it calls
+}
+
+// lexerTrie extracts spelling -> token from lexProg's character decisions.
+// Recognised family: tagless switches with `r == 'c'` / `'c' == r` cases, tagged switches with 'c' cases,
+// if/else on such a test, all nested to any depth; helper functions of the package that lexProg calls are read as if inlined.
+func lexerTrieX(f *core.Func) *lexTrie {
+	lt := &lexTrie{spell: map[string][]string{}, attributed: map[*ast.CallExpr]bool{}, emitCalls: map[string][]*ast.CallExpr{}}
+	const emitID = "internal/runtime/compiler/parser.(*Lexer).emit"
+	charLit := func(fn *core.Func, e ast.Expr) (string, bool) {
+		bl, ok := core.Unparen(e).(*ast.BasicLit)
+		if !ok || bl.Kind != token.CHAR {
+			return "", false
 		}
-		if tv, ok := info.Types[e]; ok && tv.Value != nil {
-			if bl, ok := core.Unparen(e).(*ast.BasicLit); ok && bl.Kind == token.CHAR {
-				s := bl.Value
-				if len(s) == 3 {
-					return string(s[1]), true
-				}
-			}
+		if tv, ok := fn.Info().Types[bl]; !ok || tv.Value == nil {
+			return "", false
+		}
+		if len(bl.Value) == 3 {
+			return string(bl.Value[1]), true
 		}
 		return "", false
 	}
-	emitsOf := func(body []ast.Stmt) []string {
-		var toks []string
-		for _, st := range body {
+	charOf := func(fn *core.Func, e ast.Expr) (string, bool) {
+		// `x == 'c'`, `'c' == x` or `'c'`
+		if be, ok := core.Unparen(e).(*ast.BinaryExpr); ok && be.Op == token.EQL {
+			if ch, ok := charLit(fn, be.Y); ok {
+				return ch, true
+			}
+			return charLit(fn, be.X)
+		}
+		return charLit(fn, e)
+	}
+	tokOf := func(fn *core.Func, call *ast.CallExpr) string {
+		if name := constName(fn.Info(), call.Args[0]); name != "" {
+			return name
+		}
+		return exprStr(call.Args[0])
+	}
+	// helper reports the function a statement hands over to (a plain call statement or a returned call), if it is a
+	// declared function of the package other than the lexer's primitive methods and contains token decisions of its own.
+	var helperOf func(fn *core.Func, st ast.Stmt) *core.Func
+	helperOf = func(fn *core.Func, st ast.Stmt) *core.Func {
+		var call *ast.CallExpr
+		switch x := st.(type) {
+		case *ast.ExprStmt:
+			call, _ = core.Unparen(x.X).(*ast.CallExpr)
+		case *ast.ReturnStmt:
+			if len(x.Results) == 1 {
+				call, _ = core.Unparen(x.Results[0]).(*ast.CallExpr)
+			}
+		}
+		if call == nil {
+			return nil
+		}
+		cf := fn.CalleeFunc(call)
+		if cf == nil || cf.Lit != nil || cf.Pkg != fn.Pkg || cf.Obj == nil || fn.CalleeID(call) == emitID {
+			return nil
+		}
+		if !exprCalls(cf, cf.Body, emitID) {
+			return nil
+		}
+		return cf
+	}
+	var walkStmts func(fn *core.Func, stmts []ast.Stmt, prefix string, depth int)
+	var walkSwitch func(fn *core.Func, sw *ast.SwitchStmt, prefix string, depth int)
+	isCharIf := func(fn *core.Func, st ast.Stmt) (*ast.IfStmt, string, bool) {
+		is, ok := st.(*ast.IfStmt)
+		if !ok {
+			return nil, "", false
+		}
+		ch, ok := charOf(fn, is.Cond)
+		return is, ch, ok
+	}
+	// direct emits of a statement list: everything except nested character decisions and helpers
+	var directEmits func(fn *core.Func, stmts []ast.Stmt, sp string)
+	directEmits = func(fn *core.Func, stmts []ast.Stmt, sp string) {
+		for _, st := range stmts {
 			if _, isSw := st.(*ast.SwitchStmt); isSw {
 				continue
 			}
+			if _, _, ok := isCharIf(fn, st); ok {
+				continue
+			}
+			if helperOf(fn, st) != nil {
+				continue
+			}
 			ast.Inspect(st, func(n ast.Node) bool {
-				if call, ok := n.(*ast.CallExpr); ok && strings.HasSuffix(f.CalleeID(call), "(*Lexer).emit") && len(call.Args) == 1 {
-					toks = append(toks, exprStr(call.Args[0]))
+				if call, ok := n.(*ast.CallExpr); ok && fn.CalleeID(call) == emitID && len(call.Args) == 1 {
+					if sp != "" {
+						lt.spell[sp] = append(lt.spell[sp], tokOf(fn, call))
+						lt.attributed[call] = true
+					}
 				}
 				return true
 			})
 		}
-		return toks
 	}
-	var walk func(sw *ast.SwitchStmt, prefix string)
-	walk = func(sw *ast.SwitchStmt, prefix string) {
+	walkStmts = func(fn *core.Func, stmts []ast.Stmt, prefix string, depth int) {
+		hasInner := false
+		for _, st := range stmts {
+			if sw, ok := st.(*ast.SwitchStmt); ok {
+				hasInner = true
+				walkSwitch(fn, sw, prefix, depth)
+				continue
+			}
+			if is, ch, ok := isCharIf(fn, st); ok {
+				hasInner = true
+				walkStmts(fn, is.Body.List, prefix+ch, depth)
+				switch el := is.Else.(type) {
+				case *ast.BlockStmt:
+					walkStmts(fn, el.List, prefix, depth)
+				case *ast.IfStmt:
+					walkStmts(fn, []ast.Stmt{el}, prefix, depth)
+				}
+				continue
+			}
+			if cf := helperOf(fn, st); cf != nil && depth < 3 {
+				hasInner = true
+				walkStmts(cf, cf.Body.List, prefix, depth+1)
+			}
+		}
+		_ = hasInner
+		directEmits(fn, stmts, prefix)
+	}
+	walkSwitch = func(fn *core.Func, sw *ast.SwitchStmt, prefix string, depth int) {
 		for _, cl := range sw.Body.List {
 			cc := cl.(*ast.CaseClause)
 			var chars []string
@@ -71,40 +165,112 @@ func lexerTrie(f *core.Func) map[string][]string {
 				chars = []string{""} // default: the prefix alone
 			}
 			for _, e := range cc.List {
-				if ch, ok := charOf(e); ok {
+				if ch, ok := charOf(fn, e); ok {
 					chars = append(chars, ch)
 				}
 			}
 			for _, ch := range chars {
-				sp := prefix + ch
-				hasInner := false
-				for _, st := range cc.Body {
-					if inner, ok := st.(*ast.SwitchStmt); ok {
-						hasInner = true
-						walk(inner, sp)
-					}
-				}
-				if !hasInner || ch == "" {
-					for _, t := range emitsOf(cc.Body) {
-						if sp != "" {
-							out[sp] = append(out[sp], t)
-						}
-					}
-				}
+				walkStmts(fn, cc.Body, prefix+ch, depth)
 			}
 		}
 	}
+	// every emit call in scope
+	seen := map[*core.Func]bool{}
+	var scope func(fn *core.Func, depth int)
+	scope = func(fn *core.Func, depth int) {
+		if seen[fn] || depth > 3 {
+			return
+		}
+		seen[fn] = true
+		ast.Inspect(fn.Body, func(n ast.Node) bool {
+			if call, ok := n.(*ast.CallExpr); ok && fn.CalleeID(call) == emitID && len(call.Args) == 1 {
+				t := tokOf(fn, call)
+				lt.emitCalls[t] = append(lt.emitCalls[t], call)
+			}
+			if st, ok := n.(ast.Stmt); ok {
+				if cf := helperOf(fn, st); cf != nil {
+					scope(cf, depth+1)
+				}
+			}
+			return true
+		})
+	}
+	scope(f, 0)
+	// the top level of lexProg: only its character switches (statements before them decide on lexer state, not on characters)
 	for _, st := range f.Body.List {
 		if sw, ok := st.(*ast.SwitchStmt); ok {
-			walk(sw, "")
+			walkSwitch(f, sw, "", 0)
+		}
+	}
+	return lt
+}
+
+// lexerTrie is the plain spelling -> tokens table (also used by C23).
+func lexerTrie(f *core.Func) map[string][]string { return lexerTrieX(f).spell }
+
+// unattributed lists the emit calls of token t that lie outside the recognised character decisions.
+func (lt *lexTrie) unattributed(t string) []*ast.CallExpr {
+	var out []*ast.CallExpr
+	for _, c := range lt.emitCalls[t] {
+		if !lt.attributed[c] {
+			out = append(out, c)
 		}
 	}
 	return out
 }
 
-// caseTokens collects, for a `switch n.Op` found inside the clause for the given AST type in f, the parser tokens of each case and whether a default exists.
-func opSwitchTokens(f *core.Func, nodeType string) (toks map[string]bool, ok bool) {
-	toks = map[string]bool{}
+var defsCache = map[*core.Func]map[types.Object]ast.Expr{}
+
+func defsOf(f *core.Func) map[types.Object]ast.Expr {
+	if d, ok := defsCache[f]; ok {
+		return d
+	}
+	d := singleDefs(f.Info(), f.Body)
+	defsCache[f] = d
+	return d
+}
+
+// isASTNodeType reports whether e denotes the type *ast.<name> of the compiler's ast package (through any import alias).
+func isASTNodeType(info *types.Info, e ast.Expr, name string) bool {
+	return astNodeTypeName(info, e) == name
+}
+
+// astNodeTypeName names the compiler/ast type (pointer stripped) an expression denotes, "" if none.
+func astNodeTypeName(info *types.Info, e ast.Expr) string {
+	t := info.TypeOf(e)
+	if t == nil {
+		return ""
+	}
+	if p, ok := t.(*types.Pointer); ok {
+		t = p.Elem()
+	}
+	nt, ok := t.(*types.Named)
+	if !ok || nt.Obj().Pkg() == nil || !strings.HasSuffix(nt.Obj().Pkg().Path(), "/compiler/ast") {
+		return ""
+	}
+	return nt.Obj().Name()
+}
+
+// parserToken names the parser token constant e denotes, "" if it is not one.
+func parserToken(info *types.Info, e ast.Expr) string {
+	if cn, ok := usedObj(info, e).(*types.Const); ok && cn.Pkg() != nil && strings.HasSuffix(cn.Pkg().Path(), "/compiler/parser") {
+		return cn.Name()
+	}
+	return ""
+}
+
+// opClause is a case clause of a switch on the Op field of an ast node.
+type opClause struct {
+	cc   *ast.CaseClause
+	sw   *ast.SwitchStmt
+	toks []string
+}
+
+// opSwitchClauses lists, inside the type-switch clause of f for *ast.<nodeType>, the clauses of every switch whose tag
+// is that node's Op field (directly, through `switch op := n.Op; op`, or through a single-definition local).
+func opSwitchClauses(f *core.Func, nodeType string) (out []opClause, found bool) {
+	info := f.Info()
+	defs := defsOf(f)
 	ast.Inspect(f.Body, func(n ast.Node) bool {
 		cc, isCC := n.(*ast.CaseClause)
 		if !isCC {
@@ -112,7 +278,7 @@ func opSwitchTokens(f *core.Func, nodeType string) (toks map[string]bool, ok boo
 		}
 		match := false
 		for _, e := range cc.List {
-			if exprStr(e) == "*ast."+nodeType {
+			if isASTNodeType(info, e, nodeType) {
 				match = true
 			}
 		}
@@ -121,22 +287,135 @@ func opSwitchTokens(f *core.Func, nodeType string) (toks map[string]bool, ok boo
 		}
 		ast.Inspect(cc, func(m ast.Node) bool {
 			sw, isSw := m.(*ast.SwitchStmt)
-			if !isSw || sw.Tag == nil || !strings.HasSuffix(exprStr(sw.Tag), ".Op") {
+			if !isSw || sw.Tag == nil {
 				return true
 			}
-			ok = true
+			var tag ast.Expr = sw.Tag
+			if as, ok := sw.Init.(*ast.AssignStmt); ok && len(as.Lhs) == 1 && len(as.Rhs) == 1 && identObj(info, tag) != nil && identObj(info, as.Lhs[0]) == identObj(info, tag) {
+				tag = as.Rhs[0]
+			}
+			fld, recv, _ := selField(info, throughDefs(info, defs, tag))
+			if fld != "Op" || !strings.HasSuffix(recv, "compiler/ast."+nodeType) {
+				return true
+			}
+			found = true
 			for _, cl := range sw.Body.List {
-				for _, e := range cl.(*ast.CaseClause).List {
-					if sel, isSel := e.(*ast.SelectorExpr); isSel && exprStr(sel.X) == "parser" {
-						toks[sel.Sel.Name] = true
+				c2 := cl.(*ast.CaseClause)
+				var toks []string
+				for _, e := range c2.List {
+					if t := parserToken(info, e); t != "" {
+						toks = append(toks, t)
 					}
 				}
+				out = append(out, opClause{c2, sw, toks})
 			}
 			return true
 		})
 		return false
 	})
 	return
+}
+
+// opSwitchTokens collects the parser tokens handled by the Op switches of the clause for the given AST type in f.
+func opSwitchTokens(f *core.Func, nodeType string) (toks map[string]bool, ok bool) {
+	toks = map[string]bool{}
+	cls, ok := opSwitchClauses(f, nodeType)
+	for _, oc := range cls {
+		for _, t := range oc.toks {
+			toks[t] = true
+		}
+	}
+	return toks, ok
+}
+
+// innermostOpTokens returns the tokens of the innermost Op-switch clause of f (for any node type) containing pos.
+// kind is "B" for a switch on BinaryExpr.Op, "U" for UnaryExpr.Op.
+func innermostOpTokens(f *core.Func, p token.Pos) (kind string, toks []string) {
+	var best *opClause
+	for _, nt := range []string{"BinaryExpr", "UnaryExpr"} {
+		cls, _ := opSwitchClauses(f, nt)
+		for i := range cls {
+			oc := &cls[i]
+			if len(oc.toks) > 0 && posWithin(oc.cc, p) && (best == nil || best.cc.Pos() <= oc.cc.Pos()) {
+				best, kind = oc, nt[:1]
+			}
+		}
+	}
+	if best == nil {
+		return "", nil
+	}
+	return kind, best.toks
+}
+
+// deltaSign follows the single int64 argument of a call made in a VM case down to sync/atomic.AddInt64 through
+// statically resolved callees (type-switch dispatch on the datum included) and reports the sign with which it is
+// added: +1, -1, or 0 if the chain is not recognised.
+func deltaSign(f *core.Func, call *ast.CallExpr, depth int) int {
+	cf := f.CalleeFunc(call)
+	if cf == nil || depth > 4 {
+		return 0
+	}
+	// the one int64 parameter of the callee that receives an argument
+	idx := -1
+	for i, a := range call.Args {
+		if t := f.Info().TypeOf(a); t != nil && types.Identical(t.Underlying(), types.Typ[types.Int64]) {
+			if idx >= 0 {
+				return 0
+			}
+			idx = i
+		}
+	}
+	if idx < 0 {
+		return 0
+	}
+	var params []types.Object
+	for _, fl := range cf.Type.Params.List {
+		for _, nm := range fl.Names {
+			params = append(params, cf.Info().Defs[nm])
+		}
+		if len(fl.Names) == 0 {
+			params = append(params, nil)
+		}
+	}
+	if idx >= len(params) || params[idx] == nil {
+		return 0
+	}
+	p := params[idx]
+	ci := cf.Info()
+	result, n := 0, 0
+	ast.Inspect(cf.Body, func(m ast.Node) bool {
+		inner, ok := m.(*ast.CallExpr)
+		if !ok {
+			return true
+		}
+		for _, a := range inner.Args {
+			sign := 0
+			a = core.Unparen(a)
+			if identObj(ci, a) == p {
+				sign = +1
+			} else if u, ok := a.(*ast.UnaryExpr); ok && u.Op == token.SUB && identObj(ci, u.X) == p {
+				sign = -1
+			}
+			if sign == 0 {
+				continue
+			}
+			switch id := cf.CalleeID(inner); {
+			case id == "sync/atomic.AddInt64":
+				n++
+				result = sign
+			case cf.CalleeFunc(inner) != nil:
+				if s2 := deltaSign(cf, inner, depth+1); s2 != 0 {
+					n++
+					result = sign * s2
+				}
+			}
+		}
+		return true
+	})
+	if n != 1 {
+		return 0
+	}
+	return result
 }
 
 var goOpOf = map[string]string{"+": "+", "-": "-", "*": "*", "/": "/", "%": "%", "<<": "<<", ">>": ">>", "&": "&", "|": "|", "^": "^"}
@@ -156,20 +435,21 @@ func c01(c *core.Check) {
 	c01grammar(c)
 
 	// ---- R2
-	c.Rule("C01-R2", "OPERATORS: for each token T in the checker's BinaryExpr/UnaryExpr operator switches: the lexer emits T for exactly one spelling; the code generator has a case for T; for + - * / % << >> & | ^ the int opcode's VM push expression is `a <spelling> b`, for float + - * / likewise, % is math.Mod(a, b) and ** is math.Pow")
+	c.Rule("C01-R2", "OPERATORS: for each token T in the checker's BinaryExpr/UnaryExpr operator switches: the lexer emits T for exactly one spelling; the code generator has a case for T; for + - * / % << >> & | ^ the int opcode's VM push expression is `a <spelling> b`, for float + - * / likewise, % is math.Mod(a, b) and ** is math.Pow; unary ~ pushes ^a, ++ adds and -- subtracts its delta (followed to the atomic add)")
 	lf := c.MustFn("C01-R2", lexProgKey)
 	ca := c.MustFn("C01-R2", checkerAfter)
 	cgA := c.MustFn("C01-R2", codegenAfter)
 	cgB := c.MustFn("C01-R2", codegenBefore)
 	if lf != nil && ca != nil && cgA != nil && cgB != nil {
-		trie := lexerTrie(lf)
+		trie := lexerTrieX(lf)
 		spellOf := map[string][]string{}
-		for sp, ts := range trie {
+		for sp, ts := range trie.spell {
 			for _, t := range ts {
 				spellOf[t] = append(spellOf[t], sp)
 			}
 		}
-		c.Extra["lexer_spellings"] = len(trie)
+		c.Extra["lexer_spellings"] = len(trie.spell)
+		vmDefs := defsOf(vm.F)
 		binC, ok1 := opSwitchTokens(ca, "BinaryExpr")
 		unC, ok2 := opSwitchTokens(ca, "UnaryExpr")
 		binGA, _ := opSwitchTokens(cgA, "BinaryExpr")
@@ -182,10 +462,8 @@ func c01(c *core.Check) {
 		directOp := map[string]string{}
 		for _, es := range emits {
 			if es.Call != nil && len(es.Ops) == 1 {
-				for _, t := range enclosingCaseTokens(es.F, es.Call) {
-					if len(enclosingCaseTokens(es.F, es.Call)) == 1 {
-						directOp[t] = es.Ops[0]
-					}
+				if k, ts := innermostOpTokens(es.F, es.Call.Pos()); len(ts) == 1 {
+					directOp[k+":"+ts[0]] = es.Ops[0]
 				}
 			}
 		}
@@ -201,6 +479,11 @@ func c01(c *core.Check) {
 			kind, t := kt[:1], kt[2:]
 			key := map[string]string{"B": "binary ", "U": "unary "}[kind] + t
 			sps := uniq(spellOf[t])
+			if un := trie.unattributed(t); len(un) > 0 && len(sps) <= 1 {
+				// the token is emitted at a place the trie extraction does not understand: its spellings are not all known
+				c.Undecided("C01-R2", key+"|spelling", pos(c, un[0]), fmt.Sprintf("token %s is emitted outside the recognised character decisions of lexProg (switch / if on a character literal, helpers called from there): cannot list its spellings", t))
+				continue
+			}
 			if len(sps) != 1 {
 				c.Fail("C01-R2", key+"|spelling", pos(c, lf.Decl), fmt.Sprintf("token %s is emitted for %d spellings %v: the operator cannot be written, or two spellings mean the same operator", t, len(sps), sps))
 				continue
@@ -215,7 +498,8 @@ func c01(c *core.Check) {
 				continue
 			}
 			c.Verdict(handled, "C01-R2", key+"|codegen", pos(c, cgA.Decl), "spelled `"+sp+"`, handled by the code generator", "operator "+t+" (`"+sp+"`) is typed by the checker but the code generator has no case for it: every program using it fails with an internal compiler error")
-			if kind != "B" {
+			if kind == "U" {
+				c01unary(c, vm, vmDefs, key, t, sp, directOp["U:"+t])
 				continue
 			}
 			goOp, isArith := goOpOf[sp]
@@ -225,7 +509,7 @@ func c01(c *core.Check) {
 			for _, cls := range []string{"Int", "Float"} {
 				opc := typed[t][cls]
 				if opc == "" && cls == "Int" {
-					opc = directOp[t]
+					opc = directOp["B:"+t]
 				}
 				if opc == "" {
 					continue
@@ -235,7 +519,7 @@ func c01(c *core.Check) {
 					c.Undecided("C01-R2", key+"|vm "+opc, "-", "VM case shape not recognised")
 					continue
 				}
-				got := nospace(renameIdents(vm.F, vc.Pushes[len(vc.Pushes)-1].Expr, map[types.Object]string{vc.Pops[1].Var: "a", vc.Pops[0].Var: "b"}))
+				got, _, _ := vmPushExpr(vm, vmDefs, vc.Pushes[len(vc.Pushes)-1].Expr, map[types.Object]string{vc.Pops[1].Var: "a", vc.Pops[0].Var: "b"})
 				var want []string
 				switch {
 				case sp == "**" && cls == "Float":
@@ -305,11 +589,9 @@ func c01(c *core.Check) {
 	c.Floor("C01-R6", 24)
 
 	// ---- R7
-	c.Rule("C01-R7", "ERROR-ABORTS-REST: in vm.execute no path from a call of errorf reaches a call that modifies a datum or a metric (datum.Set*/Inc*/Dec*/Observe, Metric.GetDatum/RemoveDatum/ExpireDatum); errorf stops the line (C25-R3) and ProcessLogLine returns without undoing earlier effects")
+	c.Rule("C01-R7", "ERROR-ABORTS-REST: in vm.execute (and in every function of package vm it calls that raises errors itself) no path from a call of errorf reaches a call that modifies a datum or a metric (datum.Set*/Inc*/Dec*/Observe, Metric.GetDatum/RemoveDatum/ExpireDatum); errorf stops the line (C25-R3) and ProcessLogLine returns without undoing earlier effects")
 	if exe := vm.F; exe != nil {
-		g := exe.Graph()
-		errs := g.CallsTo(vmErrorf)
-		muts := g.Calls(func(id string, _ *ast.CallExpr) bool {
+		isMut := func(id string, _ *ast.CallExpr) bool {
 			switch {
 			case strings.HasPrefix(id, "internal/metrics/datum.Set"), strings.HasPrefix(id, "internal/metrics/datum.Inc"), strings.HasPrefix(id, "internal/metrics/datum.Dec"), id == "internal/metrics/datum.Observe":
 				return true
@@ -317,27 +599,58 @@ func c01(c *core.Check) {
 				return true
 			}
 			return false
-		})
-		bad := 0
-		for i, e := range errs {
-			from := e.P
-			if tr, found := pathAvoiding(g, &from, core.HitPoints(muts), nil); found {
-				bad++
-				c.Fail("C01-R7", fmt.Sprintf("errorf#%d in %s", i+1, enclosingCaseName(exe, e.N)), pos(c, e.N), "after raising a runtime error the instruction still modifies a datum: the failed statement takes effect anyway", tr...)
+		}
+		// execute, and the functions of package vm it (transitively) calls that raise errors themselves: an opcode
+		// case moved into a helper method is judged inside the helper
+		fns := []*core.Func{exe}
+		seenFn := map[*core.Func]bool{exe: true}
+		for i := 0; i < len(fns); i++ {
+			for _, cf := range fns[i].Callees() {
+				if !seenFn[cf] && cf.Pkg == exe.Pkg && cf.Lit == nil && !c.Prog.IsTestSupport(cf) && cf.Key != vmErrorf {
+					seenFn[cf] = true
+					fns = append(fns, cf)
+				}
 			}
 		}
-		if bad == 0 {
-			c.Ok("C01-R7", "execute", pos(c, exe.Decl), fmt.Sprintf("%d errorf sites, %d mutation sites, none ordered badly", len(errs), len(muts)))
+		nerrs := 0
+		for _, fn := range fns {
+			g := fn.Graph()
+			errs := g.CallsTo(vmErrorf)
+			if fn != exe && len(errs) == 0 {
+				continue
+			}
+			c.Analysed(fn)
+			muts := g.Calls(isMut)
+			nerrs += len(errs)
+			bad := 0
+			for i, e := range errs {
+				from := e.P
+				if tr, found := pathAvoiding(g, &from, core.HitPoints(muts), nil); found {
+					bad++
+					where := enclosingCaseName(fn, e.N)
+					if fn != exe {
+						where = fn.Key
+					}
+					c.Fail("C01-R7", fmt.Sprintf("errorf#%d in %s", i+1, where), pos(c, e.N), "after raising a runtime error the instruction still modifies a datum: the failed statement takes effect anyway", tr...)
+				}
+			}
+			if bad == 0 {
+				key := "execute"
+				if fn != exe {
+					key = fn.Key
+				}
+				c.Ok("C01-R7", key, pos(c, fn.Decl), fmt.Sprintf("%d errorf sites, %d mutation sites, none ordered badly", len(errs), len(muts)))
+			}
 		}
-		c.Extra["errorf_sites"] = len(errs)
-		if len(errs) < 50 {
-			c.Undecided("C01-R7", "floor", "-", fmt.Sprintf("only %d errorf sites found in execute", len(errs)))
+		c.Extra["errorf_sites"] = nerrs
+		if nerrs < 50 {
+			c.Undecided("C01-R7", "floor", "-", fmt.Sprintf("only %d errorf sites found in execute and the functions it calls", nerrs))
 		}
 	}
 	c.Floor("C01-R7", 1)
 
 	// ---- R8
-	c.Rule("C01-R8", "SCOPING: in the code generator's CondStmt clause every walk of a block the statement opens (Truth, Else) is preceded, since the previous walk or jump, by emit(Setmatched, false); Setmatched true is emitted after the truth block only; the else block is skipped by a jump when the condition held")
+	c.Rule("C01-R8", "SCOPING: in the code generator's CondStmt clause every walk of a block the statement opens (Truth, Else) is preceded, since the previous walk or jump, by emit(Setmatched, false); Setmatched true is emitted after the truth block only; the else block is skipped by a jump when the condition held: Jnm targets a label set between the truth and else blocks, Jmp a label set after both")
 	if cgB != nil {
 		c01cond(c, cgB)
 	}
@@ -347,8 +660,58 @@ func c01(c *core.Check) {
 	if pll := c.MustFn("C01-R9", processLogLine); pll != nil {
 		threadFreshness(c, "C01-R9", pll)
 	}
-	tableSlots(c, "C01-R9")
+	tableSlotsTyped(c, "C01-R9")
 	c.Floor("C01-R9", 8)
+}
+
+// c01unary checks the VM case of the opcode a unary operator compiles to: `~` pushes ^a; `++` adds its delta to the
+// datum and `--` subtracts it (followed down to the atomic add).
+func c01unary(c *core.Check, vm *vmTable, vmDefs map[types.Object]ast.Expr, key, t, sp, opc string) {
+	if sp != "~" && sp != "++" && sp != "--" {
+		return
+	}
+	if opc == "" {
+		c.Undecided("C01-R2", key+"|vm", "-", "the opcode the code generator emits for unary "+t+" was not resolved")
+		return
+	}
+	vc := vm.Cases[opc]
+	if vc == nil {
+		c.Fail("C01-R2", key+"|vm "+opc, "-", "unary `"+sp+"` compiles to "+opc+", which the VM does not handle")
+		return
+	}
+	if sp == "~" {
+		if len(vc.Pops) != 1 || len(vc.Pushes) == 0 || vc.Pops[0].Var == nil {
+			c.Undecided("C01-R2", key+"|vm "+opc, "-", "VM case shape not recognised")
+			return
+		}
+		got, _, _ := vmPushExpr(vm, vmDefs, vc.Pushes[len(vc.Pushes)-1].Expr, map[types.Object]string{vc.Pops[0].Var: "a"})
+		c.Verdict(got == "^a", "C01-R2", key+"|vm "+opc, pos(c, vc.Pushes[len(vc.Pushes)-1].Call), "`~` -> "+t+" -> "+opc+" -> "+got, fmt.Sprintf("operator `~` compiles to %s, whose VM case computes %s of the popped value a; the operator means ^a (bitwise complement)", opc, got))
+		return
+	}
+	want := map[string]int{"++": +1, "--": -1}[sp]
+	signs := map[int]int{}
+	var where ast.Node
+	vm.inspectCase(vc, func(n ast.Node) bool {
+		call, ok := n.(*ast.CallExpr)
+		if !ok {
+			return true
+		}
+		if cf := vm.F.CalleeFunc(call); cf != nil && core.Rel(cf.Pkg.PkgPath) == "internal/metrics/datum" {
+			if s := deltaSign(vm.F, call, 0); s != 0 {
+				signs[s]++
+				where = call
+			}
+		}
+		return true
+	})
+	switch {
+	case len(signs) == 1 && signs[want] > 0:
+		c.Ok("C01-R2", key+"|vm "+opc, pos(c, where), fmt.Sprintf("`%s` -> %s -> %s adds %+d x delta to the datum", sp, t, opc, want))
+	case len(signs) == 1:
+		c.Fail("C01-R2", key+"|vm "+opc, pos(c, where), fmt.Sprintf("operator `%s` compiles to %s, whose VM case adds %+d x delta to the datum: the operator means %+d x delta", sp, opc, -want, want))
+	default:
+		c.Undecided("C01-R2", key+"|vm "+opc, pos(c, vm.F.Decl), "cannot follow the delta of "+opc+" to an atomic add with a definite sign")
+	}
 }
 
 func c01grammar(c *core.Check) {
@@ -462,65 +825,297 @@ func c01grammar(c *core.Check) {
 }
 
 func c01comparisons(c *core.Check, lf, cgA *core.Func, vm *vmTable) {
-	trie := lexerTrie(lf)
+	trie := lexerTrieX(lf)
 	spellOf := map[string]string{}
-	for sp, ts := range trie {
+	for sp, ts := range trie.spell {
 		for _, t := range ts {
 			spellOf[t] = sp
 		}
 	}
-	// per-token (cmpArg, jumpOp)
+	meaning := map[string][3]bool{"<": {true, false, false}, "<=": {true, true, false}, ">": {false, false, true}, ">=": {false, true, true}, "==": {false, true, false}, "!=": {true, false, true}}
+	isRel := func(t string) bool { _, ok := meaning[spellOf[t]]; return ok }
+	info := cgA.Info()
+	const emitID = "internal/runtime/compiler/codegen.(*codegen).emit"
+	const setLabelID = "internal/runtime/compiler/codegen.(*codegen).setLabel"
+
+	// ---- the clause of the code generator's operator switch that lists the relational tokens
+	cls, _ := opSwitchClauses(cgA, "BinaryExpr")
+	var rel *opClause
+	for i := range cls {
+		n := 0
+		for _, t := range cls[i].toks {
+			if isRel(t) {
+				n++
+			}
+		}
+		if n >= 2 && rel == nil {
+			rel = &cls[i]
+		}
+	}
+
+	// ---- the emitted template, as a sequence of emit / setLabel calls (followed into one helper method of the code generator)
+	type tItem struct {
+		kind    string // "emit" or "label"
+		op, arg string // value keys
+		text    string
+	}
+	objOf := map[string]types.Object{}
+	var valKey func(fn *core.Func, bind map[types.Object]ast.Expr, e ast.Expr, depth int) string
+	valKey = func(fn *core.Func, bind map[types.Object]ast.Expr, e ast.Expr, depth int) string {
+		fi := fn.Info()
+		e = core.Unparen(e)
+		if op, ok := constOpcode(fi, e); ok {
+			return "op:" + op
+		}
+		if v, ok := constBool(fi, e); ok {
+			return fmt.Sprintf("bool:%v", v)
+		}
+		o := identObj(fi, e)
+		if o == nil || depth > 4 {
+			return "?"
+		}
+		if arg, ok := bind[o]; ok {
+			return valKey(cgA, nil, arg, depth+1)
+		}
+		if d, ok := defsOf(fn)[o]; ok {
+			if _, isCall := core.Unparen(d).(*ast.CallExpr); !isCall {
+				return valKey(fn, bind, d, depth+1)
+			}
+		}
+		k := fmt.Sprintf("var:%s@%d", o.Name(), o.Pos())
+		objOf[k] = o
+		return k
+	}
+	var items []tItem
+	unknown := ""
+	var collect func(fn *core.Func, bind map[types.Object]ast.Expr, stmts []ast.Stmt, depth int)
+	collect = func(fn *core.Func, bind map[types.Object]ast.Expr, stmts []ast.Stmt, depth int) {
+		for _, st := range stmts {
+			es, ok := st.(*ast.ExprStmt)
+			if !ok {
+				continue
+			}
+			call, ok := core.Unparen(es.X).(*ast.CallExpr)
+			if !ok {
+				continue
+			}
+			switch id := fn.CalleeID(call); {
+			case id == emitID && len(call.Args) == 3:
+				items = append(items, tItem{"emit", valKey(fn, bind, call.Args[1], 0), valKey(fn, bind, call.Args[2], 0), "emit " + nospace(exprStr(call.Args[1])) + " " + nospace(exprStr(call.Args[2]))})
+			case id == setLabelID && len(call.Args) == 1:
+				items = append(items, tItem{"label", "", valKey(fn, bind, call.Args[0], 0), "label " + exprStr(call.Args[0])})
+			default:
+				cf := fn.CalleeFunc(call)
+				if cf == nil || cf.Lit != nil || cf.Pkg != cgA.Pkg || !exprCalls(cf, cf.Body, emitID, setLabelID) {
+					continue
+				}
+				if depth >= 1 {
+					unknown = "the template is spread over nested helpers (" + cf.Key + ")"
+					continue
+				}
+				b := map[types.Object]ast.Expr{}
+				i := 0
+				for _, fl := range cf.Type.Params.List {
+					for _, nm := range fl.Names {
+						if i < len(call.Args) {
+							b[cf.Info().Defs[nm]] = call.Args[i]
+						}
+						i++
+					}
+					if len(fl.Names) == 0 {
+						i++
+					}
+				}
+				c.Analysed(cf)
+				collect(cf, b, cf.Body.List, depth+1)
+			}
+		}
+	}
+	var argVar, jumpVar, cmpVar types.Object
+	if rel == nil {
+		c.Undecided("C01-R3", "template", "-", "the clause of the code generator's operator switch that lists the relational tokens was not found")
+	} else {
+		collect(cgA, nil, rel.cc.Body, 0)
+		var seq []string
+		for _, it := range items {
+			seq = append(seq, it.text)
+			if it.op == "?" || it.arg == "?" {
+				unknown = "an operand of `" + it.text + "` is not a constant or a variable"
+			}
+		}
+		isVar := func(k string) bool { return strings.HasPrefix(k, "var:") }
+		match := len(items) == 7 &&
+			items[0].kind == "emit" && isVar(items[0].arg) && (isVar(items[0].op) || has([]string{"op:Cmp", "op:Icmp", "op:Fcmp", "op:Scmp"}, items[0].op)) &&
+			items[1].kind == "emit" && isVar(items[1].op) && isVar(items[1].arg) &&
+			items[2].kind == "emit" && items[2].op == "op:Push" && items[2].arg == "bool:true" &&
+			items[3].kind == "emit" && items[3].op == "op:Jmp" && isVar(items[3].arg) && items[3].arg != items[1].arg &&
+			items[4].kind == "label" && items[4].arg == items[1].arg &&
+			items[5].kind == "emit" && items[5].op == "op:Push" && items[5].arg == "bool:false" &&
+			items[6].kind == "label" && items[6].arg == items[3].arg
+		switch {
+		case len(items) == 0:
+			c.Undecided("C01-R3", "template", pos(c, rel.cc), "no emit/setLabel sequence found in the relational clause (or in a helper method it calls)")
+		case match:
+			argVar, jumpVar, cmpVar = objOf[items[0].arg], objOf[items[1].op], objOf[items[0].op]
+			c.Ok("C01-R3", "template", pos(c, rel.cc), strings.Join(seq, "; "))
+		case unknown != "":
+			c.Undecided("C01-R3", "template", pos(c, rel.cc), unknown)
+		default:
+			c.Fail("C01-R3", "template", pos(c, rel.cc), "the comparison template is not [cmp; jump lFail; push true; jmp lEnd; lFail: push false; lEnd:] but "+strings.Join(seq, "; "))
+		}
+		// the variable compare instruction must range over compare opcodes only
+		if cmpVar != nil {
+			ast.Inspect(cgA.Body, func(n ast.Node) bool {
+				var lhs, rhs []ast.Expr
+				switch x := n.(type) {
+				case *ast.AssignStmt:
+					if len(x.Lhs) == len(x.Rhs) {
+						lhs, rhs = x.Lhs, x.Rhs
+					}
+				case *ast.ValueSpec:
+					if len(x.Names) == len(x.Values) {
+						for _, nm := range x.Names {
+							lhs = append(lhs, nm)
+						}
+						rhs = x.Values
+					}
+				}
+				for i := range lhs {
+					if identObj(info, lhs[i]) != cmpVar {
+						continue
+					}
+					if op, ok := constOpcode(info, rhs[i]); !ok {
+						c.Undecided("C01-R3", "template", pos(c, rhs[i]), "the compare instruction of the template is assigned a value that is not an opcode constant")
+					} else if !has([]string{"Cmp", "Icmp", "Fcmp", "Scmp"}, op) {
+						c.Fail("C01-R3", "template compare opcode", pos(c, rhs[i]), "the first instruction of the comparison template can be "+op+", which is not a compare instruction")
+					}
+				}
+				return true
+			})
+		}
+	}
+
+	// ---- operand order in the VM: every compare opcode the template can emit hands (second pop, first pop) to its compare function
+	cmpOps := map[string]bool{}
+	if len(items) > 0 && strings.HasPrefix(items[0].op, "op:") {
+		cmpOps[strings.TrimPrefix(items[0].op, "op:")] = true
+	}
+	if cmpVar != nil {
+		ast.Inspect(cgA.Body, func(n ast.Node) bool {
+			var lhs, rhs []ast.Expr
+			switch x := n.(type) {
+			case *ast.AssignStmt:
+				if len(x.Lhs) == len(x.Rhs) {
+					lhs, rhs = x.Lhs, x.Rhs
+				}
+			case *ast.ValueSpec:
+				if len(x.Names) == len(x.Values) {
+					for _, nm := range x.Names {
+						lhs = append(lhs, nm)
+					}
+					rhs = x.Values
+				}
+			}
+			for i := range lhs {
+				if identObj(info, lhs[i]) == cmpVar {
+					if op, ok := constOpcode(info, rhs[i]); ok {
+						cmpOps[op] = true
+					}
+				}
+			}
+			return true
+		})
+	}
+	for _, op := range sortedKeys(cmpOps) {
+		vc := vm.Cases[op]
+		key := "VM operand order " + op
+		if vc == nil {
+			c.Fail("C01-R3", key, "-", "the comparison template emits "+op+", which the VM does not handle")
+			continue
+		}
+		if len(vc.Pops) != 2 || vc.Pops[0].Var == nil || vc.Pops[1].Var == nil {
+			c.Undecided("C01-R3", key, pos(c, vm.F.Decl), "the case does not bind exactly two pops to variables")
+			continue
+		}
+		first, second := vc.Pops[0].Var, vc.Pops[1].Var
+		verdict, ncall := triU, 0
+		var where ast.Node
+		vm.inspectCase(vc, func(n ast.Node) bool {
+			call, ok := n.(*ast.CallExpr)
+			if !ok || len(call.Args) != 3 || !has([]string{"internal/runtime/vm.compare", "internal/runtime/vm.compareInt", "internal/runtime/vm.compareFloat", "internal/runtime/vm.compareString"}, vm.F.CalleeID(call)) {
+				return true
+			}
+			ncall++
+			where = call
+			x, y := aliasObj(vi0(vm), defsOf(vm.F), call.Args[0]), aliasObj(vi0(vm), defsOf(vm.F), call.Args[1])
+			switch {
+			case x == second && y == first:
+				verdict = triT
+			case x == first && y == second:
+				verdict = triF
+			}
+			return true
+		})
+		switch {
+		case ncall == 1 && verdict == triT:
+			c.Ok("C01-R3", key, pos(c, where), "compares (second pop, first pop)")
+		case ncall == 1 && verdict == triF:
+			c.Fail("C01-R3", key, pos(c, where), op+" hands (first pop, second pop) to its compare function: `a < b` evaluates b < a, every ordering comparison of that type is mirrored")
+		default:
+			c.Undecided("C01-R3", key, pos(c, vm.F.Decl), fmt.Sprintf("%d compare calls found in the case, or their arguments are not the popped variables", ncall))
+		}
+	}
+
+	// ---- per-token (compare operand, jump opcode): the assignments to the template's two variables inside a clause for exactly that token
 	type enc struct {
 		arg  int64
 		jump string
-		ok   bool
 	}
 	encs := map[string]*enc{}
-	info := cgA.Info()
-	var relClause *ast.CaseClause
-	ast.Inspect(cgA.Body, func(n ast.Node) bool {
-		cc, ok := n.(*ast.CaseClause)
-		if !ok || len(cc.List) != 1 {
-			return true
-		}
-		sel, ok := cc.List[0].(*ast.SelectorExpr)
-		if !ok || exprStr(sel.X) != "parser" {
-			return true
-		}
-		e := &enc{}
-		na, nj := 0, 0
-		for _, st := range cc.Body {
-			as, ok := st.(*ast.AssignStmt)
-			if !ok || len(as.Lhs) != 1 {
+	if rel != nil && argVar != nil && jumpVar != nil {
+		for _, oc := range cls {
+			if len(oc.toks) != 1 || len(oc.cc.List) != 1 || !isRel(oc.toks[0]) || !posWithin(rel.cc, oc.cc.Pos()) {
 				continue
 			}
-			switch exprStr(as.Lhs[0]) {
-			case "cmpArg":
-				if v, ok := constInt(info, as.Rhs[0]); ok {
-					e.arg = v
-					na++
+			e := &enc{}
+			na, nj := 0, 0
+			ast.Inspect(oc.cc, func(n ast.Node) bool {
+				as, ok := n.(*ast.AssignStmt)
+				if !ok || len(as.Lhs) != len(as.Rhs) {
+					return true
 				}
-			case "jumpOp":
-				if op, ok := constOpcode(info, as.Rhs[0]); ok {
-					e.jump = op
-					nj++
+				for i, l := range as.Lhs {
+					switch identObj(info, l) {
+					case argVar:
+						na++
+						if v, ok := constInt(info, as.Rhs[i]); ok {
+							e.arg = v
+						} else {
+							na += 10
+						}
+					case jumpVar:
+						nj++
+						if op, ok := constOpcode(info, as.Rhs[i]); ok {
+							e.jump = op
+						} else {
+							nj += 10
+						}
+					}
 				}
+				return true
+			})
+			if na == 1 && nj == 1 {
+				encs[oc.toks[0]] = e
+			} else {
+				c.Undecided("C01-R3", oc.toks[0]+" encoding", pos(c, oc.cc), fmt.Sprintf("the clause for %s does not assign the template's compare operand and jump opcode exactly once each from constants", oc.toks[0]))
 			}
 		}
-		if na == 1 && nj == 1 {
-			e.ok = true
-			encs[sel.Sel.Name] = e
-		}
-		return true
-	})
-	ast.Inspect(cgA.Body, func(n ast.Node) bool {
-		if cc, ok := n.(*ast.CaseClause); ok && len(cc.List) == 6 {
-			relClause = cc
-		}
-		return true
-	})
-	// compare functions: opnd -> operator
+	}
+
+	// ---- compare functions: operand value -> Go comparison of (first parameter, second parameter)
+	swapped := map[token.Token]token.Token{token.LSS: token.GTR, token.GTR: token.LSS, token.LEQ: token.GEQ, token.GEQ: token.LEQ, token.EQL: token.EQL, token.NEQ: token.NEQ}
 	cmpTab := map[string]map[int64]token.Token{}
+	cmpComplete := map[string]bool{}
 	for _, name := range []string{"compareInt", "compareFloat", "compareString"} {
 		cf := c.Prog.Fn("internal/runtime/vm." + name)
 		if cf == nil {
@@ -528,29 +1123,108 @@ func c01comparisons(c *core.Check, lf, cgA *core.Func, vm *vmTable) {
 			continue
 		}
 		c.Analysed(cf)
+		ci := cf.Info()
+		var params []types.Object
+		for _, fl := range cf.Type.Params.List {
+			for _, nm := range fl.Names {
+				params = append(params, ci.Defs[nm])
+			}
+		}
 		tab := map[int64]token.Token{}
-		ast.Inspect(cf.Body, func(n ast.Node) bool {
-			cc, ok := n.(*ast.CaseClause)
-			if !ok || len(cc.List) != 1 {
-				return true
-			}
-			v, isC := constInt(cf.Info(), cc.List[0])
-			if !isC {
-				return true
-			}
-			for _, st := range cc.Body {
-				if r, ok := st.(*ast.ReturnStmt); ok && len(r.Results) >= 1 {
-					if be, ok := core.Unparen(r.Results[0]).(*ast.BinaryExpr); ok && exprStr(be.X) == "a" && exprStr(be.Y) == "b" {
-						tab[v] = be.Op
+		complete := len(params) == 3
+		if complete {
+			pa, pb, pk := params[0], params[1], params[2]
+			cdefs := defsOf(cf)
+			isK := func(e ast.Expr) bool { return identObj(ci, throughDefs(ci, cdefs, e)) == pk }
+			ast.Inspect(cf.Body, func(n ast.Node) bool {
+				if _, isLit := n.(*ast.FuncLit); isLit {
+					return false
+				}
+				r, ok := n.(*ast.ReturnStmt)
+				if !ok {
+					return true
+				}
+				if len(r.Results) < 1 {
+					complete = false
+					return true
+				}
+				res := throughDefs(ci, cdefs, r.Results[0])
+				if v, isConst := constBool(ci, res); isConst && !v {
+					return true // the error return
+				}
+				be, ok := res.(*ast.BinaryExpr)
+				if !ok {
+					complete = false
+					return true
+				}
+				op, known := be.Op, false
+				x, y := identObj(ci, throughDefs(ci, cdefs, be.X)), identObj(ci, throughDefs(ci, cdefs, be.Y))
+				if _, isCmp := swapped[op]; isCmp {
+					switch {
+					case x == pa && y == pb:
+						known = true
+					case x == pb && y == pa:
+						op, known = swapped[op], true
 					}
 				}
-			}
-			return true
-		})
+				if !known {
+					complete = false
+					return true
+				}
+				// the operand value under which this return is reached
+				var k int64
+				haveK := false
+				var bestCC *ast.CaseClause
+				ast.Inspect(cf.Body, func(m ast.Node) bool {
+					sw, ok := m.(*ast.SwitchStmt)
+					if !ok || sw.Tag == nil || !isK(sw.Tag) {
+						return true
+					}
+					for _, cl := range sw.Body.List {
+						cc := cl.(*ast.CaseClause)
+						if posWithin(cc, r.Pos()) && (bestCC == nil || bestCC.Pos() <= cc.Pos()) {
+							bestCC = cc
+						}
+					}
+					return true
+				})
+				if bestCC != nil && len(bestCC.List) == 1 {
+					if v, ok := constInt(ci, bestCC.List[0]); ok {
+						k, haveK = v, true
+					}
+				}
+				if !haveK {
+					ifs := cf.EnclosingIfs(r.Pos())
+					if len(ifs) > 0 {
+						ic := ifs[len(ifs)-1]
+						if cb, ok := core.Unparen(ic.If.Cond).(*ast.BinaryExpr); ok && cb.Op == token.EQL && ic.InThen {
+							if v, ok := constInt(ci, cb.Y); ok && isK(cb.X) {
+								k, haveK = v, true
+							} else if v, ok := constInt(ci, cb.X); ok && isK(cb.Y) {
+								k, haveK = v, true
+							}
+						}
+					}
+				}
+				if !haveK {
+					complete = false
+					return true
+				}
+				if old, dup := tab[k]; dup && old != op {
+					complete = false
+				}
+				tab[k] = op
+				return true
+			})
+		}
 		cmpTab[name] = tab
+		cmpComplete[name] = complete
 	}
-	// jump senses
-	sense := map[string]string{} // "Jnm" -> "false" (jumps when value false)
+
+	// ---- jump senses: under which value of the popped boolean does the case assign the program counter
+	sense := map[string]string{} // "Jnm" -> "false" (jumps when value false); "?" = not recognised
+	vi := vm.F.Info()
+	vdefs := defsOf(vm.F)
 	for _, j := range []string{"Jnm", "Jm"} {
 		vc := vm.Cases[j]
 		if vc == nil {
@@ -558,54 +1232,84 @@ func c01comparisons(c *core.Check, lf, cgA *core.Func, vm *vmTable) {
 		}
 		vm.inspectCase(vc, func(n ast.Node) bool {
 			cc, ok := n.(*ast.CaseClause)
-			if !ok || len(cc.List) != 1 || exprStr(cc.List[0]) != "bool" {
+			if !ok || len(cc.List) != 1 {
 				return true
 			}
-			for _, st := range cc.Body {
-				if is, ok := st.(*ast.IfStmt); ok {
-					s := nospace(exprStr(is.Cond))
-					jumps := false
-					ast.Inspect(is.Body, func(m ast.Node) bool {
-						if as, ok := m.(*ast.AssignStmt); ok && strings.HasSuffix(core.PathOf(as.Lhs[0]), ".pc") {
-							jumps = true
-						}
-						return true
-					})
-					if jumps {
-						if strings.HasPrefix(s, "!") {
-							sense[j] = "false"
-						} else {
-							sense[j] = "true"
-						}
+			if t := vi.TypeOf(cc.List[0]); t == nil || !types.Identical(t, types.Typ[types.Bool]) {
+				return true
+			}
+			if tv, ok := vi.Types[cc.List[0]]; !ok || !tv.IsType() {
+				return true
+			}
+			mObj := vi.Implicits[cc]
+			ast.Inspect(cc, func(m ast.Node) bool {
+				as, ok := m.(*ast.AssignStmt)
+				if !ok {
+					return true
+				}
+				isPC := false
+				for _, l := range as.Lhs {
+					if fld, recv, _ := selField(vi, l); fld == "pc" && strings.HasSuffix(recv, "vm.thread") {
+						isPC = true
 					}
 				}
-			}
+				if !isPC {
+					return true
+				}
+				// does the assignment execute when the boolean is true / false?
+				runs := func(val bool) tri {
+					res := triT
+					for _, ic := range vm.F.EnclosingIfs(as.Pos()) {
+						if !posWithin(cc, ic.If.Pos()) {
+							continue
+						}
+						v := evalCond(vi, vdefs, ic.If.Cond, func(e ast.Expr) tri {
+							if mObj != nil && identObj(vi, e) == mObj {
+								if val {
+									return triT
+								}
+								return triF
+							}
+							return triU
+						})
+						if !ic.InThen {
+							v = v.not()
+						}
+						switch v {
+						case triF:
+							return triF
+						case triU:
+							res = triU
+						}
+					}
+					return res
+				}
+				onTrue, onFalse := runs(true), runs(false)
+				s := "?"
+				switch {
+				case onTrue == triT && onFalse == triF:
+					s = "true"
+				case onTrue == triF && onFalse == triT:
+					s = "false"
+				case onTrue == triT && onFalse == triT:
+					s = "either value"
+				}
+				if old, dup := sense[j]; dup && old != s {
+					s = "?"
+				}
+				sense[j] = s
+				return true
+			})
 			return true
 		})
 	}
-	c.Verdict(sense["Jnm"] == "false" && sense["Jm"] == "true", "C01-R3", "jump senses", pos(c, vm.F.Decl), "Jnm jumps on false, Jm on true", fmt.Sprintf("Jnm jumps when the value is %q and Jm when it is %q: conditions are inverted", sense["Jnm"], sense["Jm"]))
-	// template order in the relational clause
-	if relClause != nil {
-		var seq []string
-		for _, st := range relClause.Body {
-			if es, ok := st.(*ast.ExprStmt); ok {
-				if call, ok := es.X.(*ast.CallExpr); ok {
-					id := cgA.CalleeID(call)
-					switch {
-					case strings.HasSuffix(id, ".emit"):
-						seq = append(seq, "emit "+nospace(exprStr(call.Args[1]))+" "+nospace(exprStr(call.Args[2])))
-					case strings.HasSuffix(id, ".setLabel"):
-						seq = append(seq, "label "+exprStr(call.Args[0]))
-					}
-				}
-			}
-		}
-		want := []string{"emit cmpOp cmpArg", "emit jumpOp lFail", "emit code.Push true", "emit code.Jmp lEnd", "label lFail", "emit code.Push false", "label lEnd"}
-		c.Verdict(strings.Join(seq, ";") == strings.Join(want, ";"), "C01-R3", "template", pos(c, relClause), strings.Join(seq, "; "), "the comparison template is not [cmp; jump lFail; push true; jmp lEnd; lFail: push false; lEnd:] but "+strings.Join(seq, "; "))
+	if sense["Jnm"] == "?" || sense["Jm"] == "?" || sense["Jnm"] == "" || sense["Jm"] == "" {
+		c.Undecided("C01-R3", "jump senses", pos(c, vm.F.Decl), fmt.Sprintf("cannot tell under which boolean value Jnm (%q) / Jm (%q) assign the program counter: the bool clause of their type switch has a shape that is not evaluated", sense["Jnm"], sense["Jm"]))
 	} else {
-		c.Undecided("C01-R3", "template", "-", "relational clause not found")
+		c.Verdict(sense["Jnm"] == "false" && sense["Jm"] == "true", "C01-R3", "jump senses", pos(c, vm.F.Decl), "Jnm jumps on false, Jm on true", fmt.Sprintf("Jnm jumps when the value is %q and Jm when it is %q: conditions are inverted", sense["Jnm"], sense["Jm"]))
 	}
-	meaning := map[string][3]bool{"<": {true, false, false}, "<=": {true, true, false}, ">": {false, false, true}, ">=": {false, true, true}, "==": {false, true, false}, "!=": {true, false, true}}
+	senseKnown := func(j string) bool { return sense[j] == "true" || sense[j] == "false" }
+
 	evalOp := func(op token.Token, ord int) bool { // ord 0: a<b, 1: a==b, 2: a>b
 		switch op {
 		case token.LSS:
@@ -635,10 +1339,19 @@ func c01comparisons(c *core.Check, lf, cgA *core.Func, vm *vmTable) {
 		if !known {
 			continue
 		}
-		for fn, tab := range cmpTab {
+		for _, fn := range sortedKeys(cmpTab) {
+			tab := cmpTab[fn]
 			op, okOp := tab[e.arg]
+			if !okOp && !cmpComplete[fn] {
+				c.Undecided("C01-R3", t+" via "+fn, pos(c, cgA.Decl), fmt.Sprintf("%s has return statements of a shape that is not recognised: cannot tell what it computes for operand %d", fn, e.arg))
+				continue
+			}
 			if !okOp {
 				c.Fail("C01-R3", t+" via "+fn, pos(c, cgA.Decl), fmt.Sprintf("%s is compiled with compare operand %d which %s does not handle: every such comparison is a runtime error", sp, e.arg, fn))
+				continue
+			}
+			if !senseKnown(e.jump) {
+				c.Undecided("C01-R3", t+" via "+fn, pos(c, cgA.Decl), "the sense of "+e.jump+" is not known")
 				continue
 			}
 			okAll := true
@@ -654,6 +1367,30 @@ func c01comparisons(c *core.Check, lf, cgA *core.Func, vm *vmTable) {
 			c.Verdict(okAll, "C01-R3", t+" via "+fn, pos(c, cgA.Decl), fmt.Sprintf("`%s`: cmp %d (%s), %s -> %v", sp, e.arg, op, e.jump, got), fmt.Sprintf("`a %s b` compiles to cmp %d (a %s b) followed by %s; on (a<b, a=b, a>b) that yields %v but the operator means %v", sp, e.arg, op, e.jump, got, mean))
 		}
 	}
+}
+
+func vi0(vm *vmTable) *types.Info { return vm.F.Info() }
+
+// aliasObj resolves an identifier to the variable it names, following single-definition locals that are plain
+// copies of another variable (`x := y`).
+func aliasObj(info *types.Info, defs map[types.Object]ast.Expr, e ast.Expr) types.Object {
+	o := identObj(info, e)
+	for i := 0; i < 8 && o != nil; i++ {
+		d, ok := defs[o]
+		if !ok {
+			break
+		}
+		id, isIdent := core.Unparen(d).(*ast.Ident)
+		if !isIdent {
+			break
+		}
+		if n := identObj(info, id); n != nil {
+			o = n
+		} else {
+			break
+		}
+	}
+	return o
 }
 
 func c01builtins(c *core.Check, vm *vmTable, cgA *core.Func) {
@@ -681,10 +1418,21 @@ func c01builtins(c *core.Check, vm *vmTable, cgA *core.Func) {
 	explicit := map[string]bool{}
 	if cgA != nil {
 		ast.Inspect(cgA.Body, func(n ast.Node) bool {
-			if sw, ok := n.(*ast.SwitchStmt); ok && sw.Tag != nil && strings.HasSuffix(exprStr(sw.Tag), ".Name") {
+			if sw, ok := n.(*ast.SwitchStmt); ok && sw.Tag != nil {
+				// a switch on the Name field of a BuiltinExpr (directly, through `switch name := n.Name; name`, or a single-definition local)
+				gi := cgA.Info()
+				var tag ast.Expr = sw.Tag
+				if as, ok := sw.Init.(*ast.AssignStmt); ok && len(as.Lhs) == 1 && len(as.Rhs) == 1 && identObj(gi, tag) != nil && identObj(gi, as.Lhs[0]) == identObj(gi, tag) {
+					tag = as.Rhs[0]
+				}
+				if fld, recv, _ := selField(gi, throughDefs(gi, defsOf(cgA), tag)); fld != "Name" || !strings.HasSuffix(recv, "compiler/ast.BuiltinExpr") {
+					return true
+				}
 				for _, cl := range sw.Body.List {
 					for _, e := range cl.(*ast.CaseClause).List {
-						explicit[strings.Trim(exprStr(e), `"`)] = true
+						if tv, ok := gi.Types[e]; ok && tv.Value != nil && tv.Value.Kind() == constant.String {
+							explicit[constant.StringVal(tv.Value)] = true
+						}
 					}
 				}
 			}
@@ -754,21 +1502,16 @@ func c01nodes(c *core.Check) {
 			return true
 		}
 		for _, e := range cc.List {
-			tn := strings.TrimPrefix(exprStr(e), "*")
+			tn := astNodeTypeName(wf.Info(), e)
+			if tn == "" {
+				continue
+			}
 			if walked[tn] == nil {
 				walked[tn] = map[string]bool{}
 			}
-			ast.Inspect(cc, func(m ast.Node) bool {
-				if call, ok := m.(*ast.CallExpr); ok {
-					id := wf.CalleeID(call)
-					if strings.HasSuffix(id, "ast.Walk") || strings.HasSuffix(id, "ast.walknodelist") {
-						if sel, ok := core.Unparen(call.Args[1]).(*ast.SelectorExpr); ok {
-							walked[tn][sel.Sel.Name] = true
-						}
-					}
-				}
-				return true
-			})
+			for _, fld := range walkedFields(wf, cc, tn, "internal/runtime/compiler/ast.Walk", "internal/runtime/compiler/ast.walknodelist") {
+				walked[tn][fld] = true
+			}
 		}
 		return true
 	})
@@ -784,15 +1527,10 @@ func c01nodes(c *core.Check) {
 				return true
 			}
 			for _, e := range cc.List {
-				if exprStr(e) == "*ast."+typ {
-					ast.Inspect(cc, func(m ast.Node) bool {
-						if call, ok := m.(*ast.CallExpr); ok && strings.HasSuffix(f.CalleeID(call), "ast.Walk") {
-							if sel, ok := core.Unparen(call.Args[1]).(*ast.SelectorExpr); ok && sel.Sel.Name == field {
-								found = true
-							}
-						}
-						return true
-					})
+				if isASTNodeType(f.Info(), e, typ) {
+					if has(walkedFields(f, cc, typ, "internal/runtime/compiler/ast.Walk"), field) {
+						found = true
+					}
 				}
 			}
 			return true
@@ -819,7 +1557,7 @@ func c01nodes(c *core.Check) {
 				lg := lx.Graph()
 				var rets []core.Point
 				for _, e := range normalExits(lg) {
-					if e.Kind == "return" && len(e.Ret.Results) == 1 && exprStr(e.Ret.Results[0]) == "INVALID" {
+					if e.Kind == "return" && len(e.Ret.Results) == 1 && constName(lx.Info(), e.Ret.Results[0]) == "INVALID" {
 						rets = append(rets, e.P)
 					}
 				}
@@ -870,10 +1608,17 @@ func c01nodes(c *core.Check) {
 }
 
 func c01cond(c *core.Check, cgB *core.Func) {
+	info := cgB.Info()
+	defs := defsOf(cgB)
+	const emitID = "internal/runtime/compiler/codegen.(*codegen).emit"
+	const setLabelID = "internal/runtime/compiler/codegen.(*codegen).setLabel"
+	const walkID = "internal/runtime/compiler/ast.Walk"
 	var clause *ast.CaseClause
 	ast.Inspect(cgB.Body, func(n ast.Node) bool {
-		if cc, ok := n.(*ast.CaseClause); ok && len(cc.List) == 1 && exprStr(cc.List[0]) == "*ast.CondStmt" {
-			clause = cc
+		if cc, ok := n.(*ast.CaseClause); ok && len(cc.List) == 1 && isASTNodeType(info, cc.List[0], "CondStmt") {
+			if tv, ok := info.Types[cc.List[0]]; ok && tv.IsType() {
+				clause = cc
+			}
 		}
 		return true
 	})
@@ -883,23 +1628,68 @@ func c01cond(c *core.Check, cgB *core.Func) {
 	}
 	g := cgB.Graph()
 	inCl := func(hs []core.Hit) []core.Hit { return inside(hs, clause) }
-	walks := inCl(g.Calls(func(id string, call *ast.CallExpr) bool { return strings.HasSuffix(id, "ast.Walk") }))
-	setFalse := inCl(g.Calls(func(id string, call *ast.CallExpr) bool {
-		return strings.HasSuffix(id, ".emit") && len(call.Args) == 3 && nospace(exprStr(call.Args[1])) == "code.Setmatched" && exprStr(call.Args[2]) == "false"
-	}))
-	setTrue := inCl(g.Calls(func(id string, call *ast.CallExpr) bool {
-		return strings.HasSuffix(id, ".emit") && len(call.Args) == 3 && nospace(exprStr(call.Args[1])) == "code.Setmatched" && exprStr(call.Args[2]) == "true"
-	}))
+	emitOf := func(call *ast.CallExpr) (op string, operand ast.Expr, ok bool) {
+		if len(call.Args) != 3 {
+			return "", nil, false
+		}
+		op, ok = constOpcode(info, throughDefs(info, defs, call.Args[1]))
+		return op, call.Args[2], ok
+	}
+	setMatched := func(want bool) []core.Hit {
+		return inCl(g.Calls(func(id string, call *ast.CallExpr) bool {
+			if id != emitID {
+				return false
+			}
+			op, operand, ok := emitOf(call)
+			if !ok || op != "Setmatched" {
+				return false
+			}
+			v, isConst := constBool(info, throughDefs(info, defs, operand))
+			return isConst && v == want
+		}))
+	}
+	// the child block a Walk call descends into: the CondStmt field its argument denotes
+	childOf := func(call *ast.CallExpr) string {
+		if len(call.Args) < 2 {
+			return ""
+		}
+		if fld, recv, _ := selField(info, throughDefs(info, defs, call.Args[1])); strings.HasSuffix(recv, "compiler/ast.CondStmt") {
+			return fld
+		}
+		return ""
+	}
+	walks := inCl(g.CallsTo(walkID))
+	setFalse, setTrue := setMatched(false), setMatched(true)
+	// a Setmatched emit whose operand is not a constant cannot be classified
+	for _, h := range inCl(g.CallsTo(emitID)) {
+		call := h.N.(*ast.CallExpr)
+		if op, operand, ok := emitOf(call); ok && op == "Setmatched" {
+			if _, isConst := constBool(info, throughDefs(info, defs, operand)); !isConst {
+				c.Undecided("C01-R8", "CondStmt Setmatched operand", pos(c, call), "Setmatched is emitted with an operand that is not a boolean constant")
+			}
+		}
+	}
 	jumps := inCl(g.Calls(func(id string, call *ast.CallExpr) bool {
-		return strings.HasSuffix(id, ".emit") && len(call.Args) == 3 && (nospace(exprStr(call.Args[1])) == "code.Jmp" || nospace(exprStr(call.Args[1])) == "code.Jnm")
+		if id != emitID {
+			return false
+		}
+		op, _, ok := emitOf(call)
+		return ok && (op == "Jmp" || op == "Jnm")
 	}))
-	labels := inCl(g.Calls(func(id string, call *ast.CallExpr) bool { return strings.HasSuffix(id, ".setLabel") }))
+	labels := inCl(g.CallsTo(setLabelID))
+	var truthWalks, elseWalks []core.Hit
 	for _, w := range walks {
 		call := w.N.(*ast.CallExpr)
-		child := exprStr(call.Args[1])
-		if child != "n.Truth" && child != "n.Else" {
+		fld := childOf(call)
+		switch fld {
+		case "Truth":
+			truthWalks = append(truthWalks, w)
+		case "Else":
+			elseWalks = append(elseWalks, w)
+		default:
 			continue
 		}
+		child := "n." + fld // stable key: the clause variable is named by its role, whatever it is called in the source
 		// every path from the clause start to this walk must pass a Setmatched false after the last preceding walk/label
 		var barriers []core.Point
 		for _, o := range walks {
@@ -919,24 +1709,189 @@ func c01cond(c *core.Check, cgB *core.Func) {
 		if _, found := pathAvoiding(g, nil, []core.Point{w.P}, append(core.HitPoints(setFalse), barriers...)); found && len(barriers) == 0 {
 			bad = true
 		}
-		c.Verdict(!bad, "C01-R8", "CondStmt block "+child+" starts unmatched", pos(c, call), "Setmatched false precedes the block", "the "+strings.TrimPrefix(child, "n.")+" block of a conditional is entered without clearing the matched flag: an `otherwise` inside it sees matches made in the enclosing scope (or in the condition's own scope) and does not fire", tr...)
+		c.Verdict(!bad, "C01-R8", "CondStmt block "+child+" starts unmatched", pos(c, call), "Setmatched false precedes the block", "the "+fld+" block of a conditional is entered without clearing the matched flag: an `otherwise` inside it sees matches made in the enclosing scope (or in the condition's own scope) and does not fire", tr...)
 	}
-	// Setmatched true only after Truth
+	// Setmatched true only after Truth: on every path to it the truth block has been walked, and it never follows the else block
 	for _, st := range setTrue {
-		okPos := false
-		for _, w := range walks {
-			if exprStr(w.N.(*ast.CallExpr).Args[1]) == "n.Truth" && w.N.Pos() < st.N.Pos() {
-				okPos = true
+		_, noTruth := pathAvoiding(g, nil, []core.Point{st.P}, core.HitPoints(truthWalks))
+		afterElse := false
+		for _, w := range elseWalks {
+			from := w.P
+			if _, found := pathAvoiding(g, &from, []core.Point{st.P}, nil); found {
+				afterElse = true
 			}
 		}
-		for _, w := range walks {
-			if exprStr(w.N.(*ast.CallExpr).Args[1]) == "n.Else" && w.N.Pos() < st.N.Pos() {
-				okPos = false
+		c.Verdict(len(truthWalks) > 0 && !noTruth && !afterElse, "C01-R8", "CondStmt Setmatched true", pos(c, st.N), "after the truth block, before the else block", "the matched flag is set true at the wrong place")
+	}
+	// jump targets: Jnm goes to a label set after the truth block and before the else block; Jmp goes to a label set after both
+	labelObj := func(e ast.Expr) types.Object { return aliasObj(info, defs, e) }
+	setPoints := func(o types.Object) []core.Point {
+		var ps []core.Point
+		for _, l := range labels {
+			if call := l.N.(*ast.CallExpr); len(call.Args) == 1 && labelObj(call.Args[0]) == o && o != nil {
+				ps = append(ps, l.P)
 			}
 		}
-		c.Verdict(okPos, "C01-R8", "CondStmt Setmatched true", pos(c, st.N), "after the truth block, before the else block", "the matched flag is set true at the wrong place")
+		return ps
+	}
+	reaches := func(from core.Point, to []core.Point) bool {
+		_, found := pathAvoiding(g, &from, to, nil)
+		return found
+	}
+	for _, j := range jumps {
+		call := j.N.(*ast.CallExpr)
+		op, operand, _ := emitOf(call)
+		lo := labelObj(operand)
+		sets := setPoints(lo)
+		key := "CondStmt " + op + " target"
+		if lo == nil || len(sets) == 0 {
+			c.Undecided("C01-R8", key, pos(c, call), "the jump's label is not a variable passed to setLabel in this clause")
+			continue
+		}
+		bad := ""
+		for _, sp := range sets {
+			beforeTruth := false
+			for _, w := range truthWalks {
+				if reaches(sp, []core.Point{w.P}) {
+					beforeTruth = true
+				}
+			}
+			beforeElse := reaches(sp, core.HitPoints(elseWalks))
+			afterElse := false
+			for _, w := range elseWalks {
+				if reaches(w.P, []core.Point{sp}) {
+					afterElse = true
+				}
+			}
+			switch {
+			case beforeTruth:
+				bad = "its label is set before the truth block: the jump re-enters the truth block"
+			case op == "Jnm" && afterElse:
+				bad = "a false condition jumps past the else block: the else block never runs"
+			case op == "Jmp" && beforeElse:
+				bad = "after the truth block control jumps to the start of the else block: both blocks run"
+			}
+		}
+		if op == "Jmp" {
+			// the jump over the else block ends the truth path: no label of the clause may be set before it
+			for _, l := range labels {
+				if reaches(l.P, []core.Point{j.P}) {
+					bad = "it is emitted after a label has been set: a false condition lands on the jump and skips the else block"
+				}
+			}
+		}
+		c.Verdict(bad == "", "C01-R8", key, pos(c, call), "label placed "+pick(op == "Jnm", "between the truth and else blocks", "after both blocks"), op+" in the conditional has the wrong target — "+bad)
 	}
 	c.Verdict(len(jumps) >= 2 && len(setTrue) == 1, "C01-R8", "CondStmt shape", pos(c, clause), "jnm to else, jmp over else, one Setmatched true", "the conditional no longer has the shape [cond; jnm else; truth; setmatched true; jmp end; else:; …; end:]")
+}
+
+// tableSlotsTyped checks that every assignment to PatternExpr.Index / a metric symbol's Addr is the index of an
+// element appended at that moment.  Same rule and obligation keys as tableSlots (c04.go), with every name resolved:
+// the table is whatever expression S denotes the Regexps / Metrics field of a code.Object, the index must be
+// len(S)-1 just after `S = append(S, …)` (Regexps) or len(S) just before it (Metrics), on the same access path S;
+// definitions of single-definition locals between the two statements are skipped and read through.
+func tableSlotsTyped(c *core.Check, rule string) {
+	tableOf := func(f *core.Func, e ast.Expr, field string) (string, bool) {
+		fld, recv, _ := selField(f.Info(), e)
+		if fld != field || !strings.HasSuffix(recv, "runtime/code.Object") {
+			return "", false
+		}
+		return core.PathOf(e), true
+	}
+	lenOf := func(f *core.Func, e ast.Expr, field string) (string, bool) {
+		call, ok := core.Unparen(e).(*ast.CallExpr)
+		if !ok || len(call.Args) != 1 || f.CalleeID(call) != "builtin.len" {
+			return "", false
+		}
+		return tableOf(f, throughDefs(f.Info(), defsOf(f), call.Args[0]), field)
+	}
+	appendTo := func(f *core.Func, st ast.Stmt, path, field string) bool {
+		as, ok := st.(*ast.AssignStmt)
+		if !ok || len(as.Lhs) != 1 || len(as.Rhs) != 1 {
+			return false
+		}
+		if p, ok := tableOf(f, as.Lhs[0], field); !ok || p != path {
+			return false
+		}
+		call, ok := core.Unparen(as.Rhs[0]).(*ast.CallExpr)
+		if !ok || len(call.Args) < 2 || f.CalleeID(call) != "builtin.append" {
+			return false
+		}
+		p, ok := tableOf(f, call.Args[0], field)
+		return ok && p == path
+	}
+	isLocalDef := func(f *core.Func, st ast.Stmt) bool {
+		as, ok := st.(*ast.AssignStmt)
+		if !ok || as.Tok != token.DEFINE {
+			return false
+		}
+		for _, l := range as.Lhs {
+			if _, single := defsOf(f)[identObj(f.Info(), l)]; !single {
+				return false
+			}
+		}
+		return true
+	}
+	for _, k := range c.Prog.SortedFuncKeys() {
+		f := c.Prog.Funcs[k]
+		if f.Lit != nil || c.Prog.IsTestSupport(f) {
+			continue
+		}
+		info := f.Info()
+		ast.Inspect(f.Body, func(n ast.Node) bool {
+			var list []ast.Stmt
+			switch b := n.(type) {
+			case *ast.BlockStmt:
+				list = b.List
+			case *ast.CaseClause:
+				list = b.Body
+			}
+			for i, st := range list {
+				as, ok := st.(*ast.AssignStmt)
+				if !ok || len(as.Lhs) != 1 || len(as.Rhs) != 1 {
+					continue
+				}
+				fld, recvT, _ := selField(info, as.Lhs[0])
+				if fld == "" {
+					continue
+				}
+				rhs := throughDefs(info, defsOf(f), as.Rhs[0])
+				rhsText := nospace(exprStr(as.Rhs[0]))
+				prev, next := i-1, i+1
+				for prev >= 0 && isLocalDef(f, list[prev]) {
+					prev--
+				}
+				for next < len(list) && isLocalDef(f, list[next]) {
+					next++
+				}
+				switch {
+				case fld == "Index" && strings.HasSuffix(recvT, "ast.PatternExpr"):
+					c.Analysed(f)
+					okSlot := false
+					if be, ok := rhs.(*ast.BinaryExpr); ok && be.Op == token.SUB {
+						if one, isC := constInt(info, be.Y); isC && one == 1 {
+							if path, ok := lenOf(f, be.X, "Regexps"); ok {
+								okSlot = prev >= 0 && appendTo(f, list[prev], path, "Regexps")
+							}
+						}
+					}
+					c.Verdict(okSlot, rule, f.Key+"|PatternExpr.Index", pos(c, as), "fresh slot", "a pattern's regexp index is not the index of a regexp appended for it at that moment ("+rhsText+"): it may be out of range or shared with another pattern, whose capture groups it then overwrites")
+				case fld == "Addr" && strings.HasSuffix(recvT, "symbol.Symbol"):
+					c.Analysed(f)
+					if core.Rel(f.Pkg.PkgPath) == "internal/runtime/compiler/codegen" {
+						okSlot := false
+						if path, ok := lenOf(f, rhs, "Metrics"); ok {
+							okSlot = next < len(list) && appendTo(f, list[next], path, "Metrics")
+						}
+						c.Verdict(okSlot, rule, f.Key+"|Symbol.Addr", pos(c, as), "index of the metric appended next", "a metric symbol's address is not the index at which its metric is appended ("+rhsText+")")
+					} else {
+						c.Ok(rule, f.Key+"|Symbol.Addr", pos(c, as), "capture-group number assigned by the checker; the VM bounds-checks it (R5)")
+					}
+				}
+			}
+			return true
+		})
+	}
 }
 
 func without(ps []core.Point, p core.Point) []core.Point {
@@ -946,6 +1901,54 @@ func without(ps []core.Point, p core.Point) []core.Point {
 			out = append(out, x)
 		}
 	}
+	return out
+}
+
+// walkedFields lists the fields of *ast.<typ> that the statements of clause cc hand to one of the given walk
+// functions: `Walk(v, n.F)`, through a single-definition local (`x := n.F; Walk(v, x)`, also in an if header),
+// as the element of a range over the field (`for _, x := range n.F { Walk(v, x) }`) or as an indexed element (`n.F[i]`).
+func walkedFields(f *core.Func, cc *ast.CaseClause, typ string, walkIDs ...string) []string {
+	info := f.Info()
+	defs := defsOf(f)
+	rangeOf := map[types.Object]ast.Expr{}
+	ast.Inspect(cc, func(n ast.Node) bool {
+		if rs, ok := n.(*ast.RangeStmt); ok && rs.Value != nil {
+			if o := identObj(info, rs.Value); o != nil {
+				rangeOf[o] = rs.X
+			}
+		}
+		return true
+	})
+	var fieldName func(e ast.Expr, depth int) string
+	fieldName = func(e ast.Expr, depth int) string {
+		e = throughDefs(info, defs, e)
+		if depth > 4 {
+			return ""
+		}
+		if fld, recv, _ := selField(info, e); fld != "" && strings.HasSuffix(recv, "compiler/ast."+typ) {
+			return fld
+		}
+		switch x := e.(type) {
+		case *ast.Ident:
+			if r, ok := rangeOf[identObj(info, x)]; ok {
+				return fieldName(r, depth+1)
+			}
+		case *ast.IndexExpr:
+			return fieldName(x.X, depth+1)
+		}
+		return ""
+	}
+	var out []string
+	ast.Inspect(cc, func(m ast.Node) bool {
+		call, ok := m.(*ast.CallExpr)
+		if !ok || len(call.Args) < 2 || !has(walkIDs, f.CalleeID(call)) {
+			return true
+		}
+		if fld := fieldName(call.Args[1], 0); fld != "" {
+			out = append(out, fld)
+		}
+		return true
+	})
 	return out
 }
 
@@ -962,10 +1965,12 @@ func refersTo(c *core.Check, fkey, typ, field string) bool {
 			return true
 		}
 		for _, e := range cc.List {
-			if exprStr(e) == "*ast."+typ {
+			if isASTNodeType(f.Info(), e, typ) {
 				ast.Inspect(cc, func(m ast.Node) bool {
-					if sel, ok := m.(*ast.SelectorExpr); ok && sel.Sel.Name == field {
-						found = true
+					if sel, ok := m.(*ast.SelectorExpr); ok {
+						if fld, recv, _ := selField(f.Info(), sel); fld == field && strings.HasSuffix(recv, "compiler/ast."+typ) {
+							found = true
+						}
 					}
 					return true
 				})
